@@ -16,7 +16,12 @@ RULE = ("seeded random histories (length <= 25) over {construct from molecule (n
         "conformers), ensemble-level assignment of coords / atomic_charges / weights (full, broadcastable, wrong length), scale, "
         "invert, translate (1-D, per-conformer 2-D), rotate (one matrix, one matrix per conformer), translate / rotate with a "
         "number of vectors / matrices that does not fit, center_at_atom, center_at_core, write through a conformer (coords[j]=v, "
-        "coords=M, coords+=v, translate, scale, atomic_charges[j]=q, attrib[k]=v), in-place edits of what the ensemble was "
+        "coords=M, coords+=v, translate, scale, atomic_charges[j]=q, attrib[k]=v, connect), attempted assignment of name / charge / mult / "
+        "attrib through a conformer, edits of the ensemble itself (name, charge, mult, a new attrib object, connect, del_bond, "
+        "connect_like) with conformers taken BEFORE the edit compared afterwards (fields, mol2 / xyz text), the inherited read "
+        "accessors of a molecule called on a conformer (coords_as_list, get_atom_coord, centroid, distance, coord_subset, "
+        "substructure, heavy, formula, Molecule / Structure / CartesianGeometry(conformer)), append / extend of a geometry into an "
+        "ensemble that has no atoms, in-place edits of what the ensemble was "
         "constructed from / grown with, iterate (list, nested, zip, abandoned+fresh, three levels, while growing), slice, negative "
         "index, dump every conformer and the whole ensemble (mol2, xyz; string and stream forms), store conformers in a "
         "MoleculeLibrary and the ensemble in a ConformerLibrary, pickle / deepcopy conformers and the ensemble, continue the "
@@ -37,6 +42,9 @@ ASSUMPTIONS = [
     "(unset or the molecule's own are both accepted) and are assigned right away",
     "while a loop is running and the ensemble grows, the loop must visit conformers 0..k-1 in order, once each, with k between "
     "the number of conformers at the start and at the end (both a list-like and a snapshot iteration satisfy the statement)",
+    "an assignment `conformer.name / charge / mult / attrib = v` may raise (then nothing changes) or must show in the ensemble",
+    "an ensemble without atoms either refuses a geometry that has atoms or ends up with n_atoms and the three arrays in agreement, "
+    "and its rows do not alias the geometry that was appended",
     "a ConformerLibrary round trip may round to float32 (1.2e-7 relative); when the history continues on the read-back ensemble "
     "the model adopts the stored values",
 ]
@@ -53,9 +61,18 @@ REQUIRED = {"op.append": 200, "op.extend": 100, "op.iterate.nested": 100, "op.it
             "op.serialise.conformer-pickled": 100, "op.serialise.ensemble-pickled": 50, "op.continue-on-copy": 50,
             "op.continue-on-copy.library": 10, "op.continue-on-copy.pickle": 10, "op.continue-on-copy.deepcopy": 10,
             "op.continue-on-copy.constructor": 10, "op.write-through.attrib": 30, "op.write-through.mutator": 50,
-            "view.attrib-checked": 3000}
-# violation keys that the UNCHANGED tree produces (genuine defects written up in tools/findings/C14-ext.json); none at present
-KNOWN_ON_UNCHANGED_TREE = set()
+            "view.attrib-checked": 3000,
+            # gap review (third round)
+            "op.edit-ensemble": 300, "op.edit-ensemble.name": 30, "op.edit-ensemble.charge-mult": 30,
+            "op.edit-ensemble.attrib-object": 30, "op.edit-ensemble.connect": 30, "op.edit-ensemble.connect_like": 30,
+            "op.edit-ensemble.del_bond": 20, "view.held-fields-checked": 2000, "view.held-after-edit-checked": 300,
+            "view.held-text-checked": 300, "op.write-through.view-setattr": 100, "op.write-through.view-connect": 15,
+            "view.full-read": 3000, "view.full-read.held": 500, "op.grow-atomless": 100}
+# violation keys that the UNCHANGED tree produces (genuine defects written up in tools/findings/C14-ext.json)
+KNOWN_ON_UNCHANGED_TREE = set()      # (repaired in the library: ac5dec7)
+import os as _os
+if _os.environ.get("VERIF_C14_JUDGE_KNOWN"):     # (to verify a repaired tree: report these as well)
+    KNOWN_ON_UNCHANGED_TREE = set()
 CHUNK_TIMEOUT = 900
 TECHNIQUE = "runtime monitoring: rectangular-array reference model stepped beside the real ensemble + iteration-pattern oracle"
 LEVEL_TEXT = ("Held on the operation histories produced: after every operation the ensemble's three arrays, every conformer view "
@@ -77,6 +94,8 @@ class Model:
         self.charges = np.array(charges, dtype=float)
         self.weights = np.array(weights, dtype=float)
         self.attrib = {}
+        self.name, self.charge, self.mult = None, None, None
+        self.bonds = []         # (index of a1, index of a2) in the order of the ensemble's bond list
 
     @property
     def nc(self):
@@ -259,6 +278,93 @@ def close(a, b, exact):
     return bool(np.allclose(a, b, rtol=1e-12, atol=1e-12, equal_nan=True))
 
 
+def bond_pairs(x):
+    """[(index of a1, index of a2)] of an ensemble / conformer / molecule, in the order of its bond list"""
+    idx = {id(a): k for k, a in enumerate(x.atoms)}
+    return [(idx.get(id(b.a1), -1), idx.get(id(b.a2), -1)) for b in x.bonds]
+
+
+def unordered(pairs):
+    return sorted(tuple(sorted(p)) for p in pairs)
+
+
+def text_header_differs(t2, tx, name, na, bonds):
+    """what the mol2 / xyz text of a conformer says about name, atom and bond counts, bond block -> the first thing that is not
+    what the ensemble says, or None"""
+    L = t2.splitlines()
+    try:
+        k = next(i for i, ln in enumerate(L) if ln.strip().upper() == "@<TRIPOS>MOLECULE")
+        if L[k + 1].strip() != str(name).strip():
+            return "mol2-name"
+        cnt = L[k + 2].split()
+        if int(cnt[0]) != na or int(cnt[1]) != len(bonds):
+            return "mol2-atom-or-bond-count"
+        kb = next(i for i, ln in enumerate(L) if ln.strip().upper() == "@<TRIPOS>BOND")
+        got = []
+        for ln in L[kb + 1:]:
+            if ln.startswith("@"):
+                break
+            f = ln.split()
+            if len(f) >= 3:
+                got.append((int(f[1]) - 1, int(f[2]) - 1))
+        if unordered(got) != unordered(bonds):
+            return "mol2-bond-block"
+    except (StopIteration, IndexError, ValueError):
+        return "mol2-layout"
+    X = tx.splitlines()
+    try:
+        if int(X[0].split()[0]) != na:
+            return "xyz-atom-count"
+        if X[1].strip() != " ".join(str(name).splitlines()).strip():
+            return "xyz-name"
+    except (IndexError, ValueError):
+        return "xyz-layout"
+    return None
+
+
+def grow_atomless(rng, ctx, case, base):
+    """ConformerEnsemble() has no atoms and no conformers.  Growing it with a geometry that HAS atoms is either refused or gives
+    an ensemble whose n_atoms and three arrays agree; its rows never alias the geometry that was handed over."""
+    import numpy as np
+    import molli as ml
+
+    def v(key, **kw):
+        if key in KNOWN_ON_UNCHANGED_TREE:
+            return ctx.count("known-on-unchanged-tree")
+        ctx.violation(key, case=case, **kw)
+
+    how = rng.choice(["append", "append", "extend-list", "extend-ensemble"])
+    ctx.count("op.grow-atomless")
+    ctx.count(f"op.grow-atomless.{how}")
+    g = ml.Molecule(base)
+    g.coords = np.array([[rng.uniform(-6, 6) for _ in range(3)] for _ in range(g.n_atoms)])
+    c0 = np.array(g.coords)
+    x = ml.ConformerEnsemble()
+    try:
+        if how == "append":
+            x.append(g)
+        elif how == "extend-list":
+            x.extend([g])
+        else:
+            x.extend(ml.ConformerEnsemble(g, n_conformers=2))
+    except Exception:  # noqa
+        ctx.count("op.grow-atomless.refused")
+    op = how.split("-")[0]
+    sh, ok = rectangular(x)
+    if not ok:
+        which = "n_atoms" if (sh[1] == sh[0][:2] and sh[2] == sh[0][:1] and len(sh[0]) == 3) else "arrays"
+        v(f"{op}:into-ensemble-without-atoms:accepted-and-{which}-" + ("does-not-fit-the-arrays" if which == "n_atoms" else "not-rectangular"),
+          got=[list(t) for t in sh], n_atoms=x.n_atoms, how=how)
+    cs = x.coords
+    if np.ndim(cs) == 3 and np.shape(cs)[0] >= 1 and np.shape(cs)[1] >= 1:
+        try:
+            cs[0][0] = [9.0, -9.0, 9.0]
+        except Exception:  # noqa
+            pass
+        if not close(g.coords, c0, True):
+            v(f"{op}:into-ensemble-without-atoms:row-aliases-the-appended-geometry", how=how)
+
+
 class Driver:
     def __init__(self, ctx, case, ens, model, base):
         self.ctx, self.case, self.e, self.m, self.base = ctx, case, ens, model, base
@@ -295,6 +401,14 @@ class Driver:
         # the geometries the ensemble was grown with are independent of it
         if m.attrib != dict(e.attrib):
             return self.v(f"{after}:attrib-differ-from-expected", got=sorted(map(str, e.attrib)), want=sorted(map(str, m.attrib)))
+        # the ensemble's own name / charge / multiplicity / bond list are what the history made them
+        try:
+            own = {"name": e.name, "charge": e.charge, "mult": e.mult, "bonds": bond_pairs(e)}
+        except Exception as ex:  # noqa
+            return self.v(f"{after}:ensemble-fields-raise:{type(ex).__name__}", err=repr(ex)[:200])
+        for f, got in own.items():
+            if got != getattr(m, f):
+                return self.v(f"{after}:ensemble-{f}-differ-from-expected", got=repr(got)[:80], want=repr(getattr(m, f))[:80])
         for g, c0, q0, w0 in self.sources:
             ctx.count("source.checked")
             if w0 is not None:
@@ -316,8 +430,17 @@ class Driver:
             try:
                 if not close(c.coords, m.coords[row], exact) or not close(c.atomic_charges, m.charges[row], exact):
                     return self.v(f"{after}:conformer-taken-earlier-no-longer-shows-its-row", conformer=row)
+                ctx.count("view.held-fields-checked")
+                stale = self.field_that_differs(c)
+                if stale:
+                    return self.v(f"{after}:conformer-taken-earlier-shows-another-{stale}-than-the-ensemble", conformer=row)
             except Exception as ex:  # noqa
                 return self.v(f"{after}:conformer-taken-earlier-raises:{type(ex).__name__}", conformer=row, err=repr(ex)[:200])
+        if self.held and m.nc:
+            row, c = self.held[-1]
+            ctx.count("view.full-read.held")
+            if not self.full_reads(after, c, row, "conformer-taken-earlier", exact):
+                return
         # every conformer is a view of its row
         for i in range(m.nc):
             ctx.count("view.checked")
@@ -327,15 +450,169 @@ class Driver:
                     return self.v(f"{after}:conformer-view-shape-wrong", conformer=i)
                 if not close(c.coords, m.coords[i], exact) or not close(c.atomic_charges, m.charges[i], exact):
                     return self.v(f"{after}:conformer-view-shows-another-row", conformer=i)
-                if any(a is not b for a, b in zip(c.atoms, e.atoms)) or len(c.bonds) != len(e.bonds):
+                if any(a is not b for a, b in zip(c.atoms, e.atoms)) or len(c.bonds) != len(e.bonds) \
+                        or any(a is not b for a, b in zip(c.bonds, e.bonds)) or c.n_bonds != len(m.bonds):
                     return self.v(f"{after}:conformer-view-atoms-or-bonds-differ", conformer=i)
-                if c.name != e.name or c.charge != e.charge or c.mult != e.mult:
+                if c.name != e.name or c.charge != e.charge or c.mult != e.mult or c.name != m.name or c.charge != m.charge or c.mult != m.mult:
                     return self.v(f"{after}:conformer-view-name-charge-mult-differ", conformer=i)
                 ctx.count("view.attrib-checked")
                 if dict(c.attrib) != m.attrib:
                     return self.v(f"{after}:conformer-view-attrib-differ-from-the-ensembles", conformer=i)
             except Exception as ex:  # noqa
                 return self.v(f"{after}:conformer-view-raises:{type(ex).__name__}", conformer=i, err=repr(ex)[:200])
+        if m.nc:
+            # a conformer is a FULL molecule view: everything a molecule answers, it answers, from its row
+            i = ctx.counters.get("inspect", 0) % m.nc
+            if not self.full_reads(after, e[i], i, "conformer-view", exact):
+                return
+
+    def field_that_differs(self, c):
+        """name of the first ensemble-level field (name, charge, mult, attrib, bonds) a conformer shows differently from the
+        ensemble / the model, or None"""
+        e, m = self.e, self.m
+        if c.name != m.name or c.name != e.name:
+            return "name"
+        if c.charge != m.charge or c.charge != e.charge:
+            return "charge"
+        if c.mult != m.mult or c.mult != e.mult:
+            return "mult"
+        if dict(c.attrib) != m.attrib:
+            return "attrib"
+        cb, eb = c.bonds, e.bonds
+        if len(cb) != len(eb) or c.n_bonds != len(m.bonds) or any(a is not b for a, b in zip(cb, eb)):
+            return "bonds"
+        return None
+
+    def full_reads(self, after, c, row, who, exact):
+        """the inherited read accessors of a molecule, called on a conformer, answer from row `row`.  -> False after a violation"""
+        import numpy as np
+        import molli as ml
+
+        e, m, ctx = self.e, self.m, self.ctx
+        ctx.count("view.full-read")
+        R, Q, na = m.coords[row], m.charges[row], m.na
+        j = row % na
+        sym = [a.element.symbol for a in e.atoms]
+        heavy = [k for k, s_ in enumerate(sym) if s_ != "H"]
+
+        def copied(cls, charges):
+            x = cls(c)
+            ok = x.n_atoms == na and close(x.coords, R, exact)
+            if charges:
+                ok = ok and close(x.atomic_charges, Q, exact) and x.name == m.name and x.charge == m.charge and x.mult == m.mult \
+                    and dict(x.attrib) == m.attrib and unordered(bond_pairs(x)) == unordered(m.bonds)
+            return ok
+
+        reads = (
+            ("coords_as_list", lambda: close(np.array(c.coords_as_list, dtype=float).reshape(-1, 3), R, exact)),
+            ("get_atom_coord", lambda: close(c.get_atom_coord(j), R[j], exact) and close(c.get_atom_coord(e.atoms[na - 1]), R[na - 1], exact)),
+            ("coord_subset", lambda: close(c.coord_subset([j, 0]), R[[j, 0]], exact)),
+            ("centroid", lambda: close(c.centroid(), np.average(R, axis=0), False)),
+            ("distance", lambda: close(c.distance(0, na - 1), np.linalg.norm(R[0] - R[na - 1]), False)),
+            ("vector", lambda: close(c.vector(j, 0), R[0] - R[j], False)),
+            ("substructure", lambda: close(c.substructure([j, na - 1] if j != na - 1 else [j]).coords, R[[j, na - 1] if j != na - 1 else [j]], exact)),
+            ("heavy", lambda: close(np.asarray(c.heavy.coords).reshape(-1, 3), R[heavy].reshape(-1, 3), exact)),
+            ("formula", lambda: c.formula == e.formula and [x.symbol for x in c.elements] == sym),
+            ("n_atoms-n_bonds", lambda: c.n_atoms == na and c.n_bonds == len(m.bonds)),
+            ("Molecule(conformer)", lambda: copied(ml.Molecule, True)),
+            ("Structure(conformer)", lambda: copied(ml.Structure, False)),
+            ("CartesianGeometry(conformer)", lambda: copied(ml.CartesianGeometry, False)),
+        )
+        for name, fn in reads:
+            try:
+                ok = fn()
+            except Exception as ex:  # noqa
+                self.v(f"{after}:{who}-read-accessor-raises:{name}:{type(ex).__name__}", conformer=row, err=repr(ex)[:200])
+                return False
+            if not ok:
+                self.v(f"{after}:{who}-read-accessor-does-not-answer-from-its-row:{name}", conformer=row)
+                return False
+        return True
+
+    def text_of_held(self, after):
+        """mol2 / xyz text of the conformers taken earlier: name, counts, bond block and coordinates are the ensemble's"""
+        import numpy as np
+        import molli as ml
+
+        m, ctx = self.m, self.ctx
+        for row, c in self.held:
+            ctx.count("view.held-text-checked")
+            try:
+                t2, tx = c.dumps_mol2(), c.dumps_xyz()
+                back = ml.Molecule.loads_mol2(t2)
+            except Exception as ex:  # noqa
+                return self.v(f"{after}:conformer-taken-earlier-cannot-be-written:{type(ex).__name__}", conformer=row, err=repr(ex)[:200])
+            bad = text_header_differs(t2, tx, m.name, m.na, m.bonds)
+            if bad:
+                return self.v(f"{after}:text-of-conformer-taken-earlier-differs-from-the-ensemble:{bad}", conformer=row)
+            if not np.allclose(back.coords, m.coords[row], atol=1e-6, equal_nan=True):
+                return self.v(f"{after}:text-of-conformer-taken-earlier-shows-another-row", conformer=row)
+
+    def edit_ensemble(self, rng):
+        """the ensemble ITSELF is edited: name, charge, multiplicity, a new attrib object, bonds added / removed / taken over
+        from another molecule.  Conformers taken BEFORE the edit keep showing what the ensemble says."""
+        import molli as ml
+
+        e, m, ctx = self.e, self.m, self.ctx
+        if m.nc and (not self.held or rng.random() < 0.5):
+            i = rng.randrange(m.nc)
+            self.held.append((i, e[i]))
+            del self.held[:-4]
+        what = rng.choice(["name", "charge", "mult", "charge+mult", "attrib-object", "connect", "connect", "connect_like", "connect_like", "del_bond"])
+        free = [(a, b) for a in range(m.na) for b in range(a + 1, m.na) if (a, b) not in m.bonds and (b, a) not in m.bonds]
+        if what == "connect" and not free:
+            what = "del_bond"
+        if what == "del_bond" and not m.bonds:
+            what = "connect" if free else "name"
+        self.kinds.append(f"edit-ensemble:{what}")
+        ctx.count("op.edit-ensemble")
+        ctx.count("op.edit-ensemble." + ("charge-mult" if what in ("charge", "mult", "charge+mult") else what))
+        try:
+            if what == "name":
+                m.name = rng.choice([n for n in ("ens_b", "anion-1", "Q7", "renamed", "e.3", "Zz") if n != m.name])
+                e.name = m.name
+            elif what in ("charge", "mult", "charge+mult"):
+                if "charge" in what:
+                    m.charge = rng.choice([q for q in (-2, -1, 0, 1, 2, 3) if q != m.charge])
+                    e.charge = m.charge
+                if "mult" in what:
+                    m.mult = rng.choice([q for q in (1, 2, 3, 4) if q != m.mult])
+                    e.mult = m.mult
+            elif what == "attrib-object":
+                new = {rng.choice(["state", "k", "source"]): rng.choice(["anion", 1, 2.5, "crest", False])}
+                if rng.random() < 0.3:
+                    new = {}
+                m.attrib = dict(new)
+                e.attrib = new
+            elif what == "connect":
+                a, b = rng.choice(free)
+                if rng.random() < 0.5:
+                    e.connect(a, b)
+                else:
+                    e.connect(e.atoms[a], e.atoms[b], btype=rng.choice([ml.BondType.Single, ml.BondType.Double, ml.BondType.Aromatic]))
+                m.bonds.append((a, b))
+            elif what == "del_bond":
+                k = rng.randrange(len(m.bonds))
+                e.del_bond(e.bonds[k])
+                del m.bonds[k]
+            else:
+                # the connectivity of another molecule with the same atoms is taken over (the bond list is replaced)
+                ref = ml.Molecule(self.base)
+                for _ in range(rng.choice([1, 1, 2])):
+                    if ref.n_bonds and rng.random() < 0.5:
+                        ref.del_bond(rng.choice(ref.bonds))
+                    else:
+                        fr = [(a, b) for a in range(m.na) for b in range(a + 1, m.na) if ref.lookup_bond(a, b) is None]
+                        if fr:
+                            ref.connect(*rng.choice(fr))
+                e.connect_like(ref)
+                m.bonds = bond_pairs(ref)
+        except Exception as ex:  # noqa
+            return self.v(f"edit-ensemble:{what}:raises:{type(ex).__name__}", err=repr(ex)[:200])
+        ctx.count("view.held-after-edit-checked", len(self.held))
+        self.inspect(f"edit-ensemble:{what}")
+        if self.ok:
+            self.text_of_held(f"edit-ensemble:{what}")
 
     def geometry_like(self, rng, kind):
         """a geometry with the ensemble's atoms to append / extend with"""
@@ -417,6 +694,8 @@ class Driver:
                 c0 = np.array(g.coords)
             self.sources[k] = (g, c0, q0, w0)
             return self.inspect(self.kinds[-1])
+        if rng.random() < 0.08:
+            return self.edit_ensemble(rng)
         if m.nc >= 1 and rng.random() < 0.07:
             return self.assign(rng)
         if m.nc >= 1 and rng.random() < (0.15 if m.nc == 1 else 0.04):
@@ -597,8 +876,11 @@ class Driver:
                     # (a conformer taken with a negative index means "counted from the end" and is not held)
                     self.held.append((i, c))
                     del self.held[:-4]
-                how = rng.choice(["coords[j]=v", "coords=M", "charges[j]=q", "charges=array", "coords+=v", "translate", "scale", "attrib[k]=v"])
+                how = rng.choice(["coords[j]=v", "coords=M", "charges[j]=q", "charges=array", "coords+=v", "translate", "scale", "attrib[k]=v",
+                                  "view.name=v", "view.charge=v", "view.mult=v", "view.attrib=v", "view.connect"])
                 self.kinds.append(f"write:{how}")
+                if how.startswith("view."):
+                    return self.write_field_through_view(rng, c, how)
                 if how in ("coords+=v", "translate", "scale"):
                     # geometry-level mutators called on the view
                     ctx.count("op.write-through.mutator")
@@ -673,6 +955,42 @@ class Driver:
             self.kinds.append("!raised")
             return self.v(f"{kind}:raises:{type(ex).__name__}", err=repr(ex)[:200])
         self.inspect(self.kinds[-1].split(":")[0] if self.kinds else "start", exact)
+
+    def write_field_through_view(self, rng, c, how):
+        """conformer.name / charge / mult / attrib = v, conformer.connect(a, b): refused (nothing changes), or it shows in the ensemble"""
+        e, m, ctx = self.e, self.m, self.ctx
+        if how == "view.connect":
+            free = [(a, b) for a in range(m.na) for b in range(a + 1, m.na) if (a, b) not in m.bonds and (b, a) not in m.bonds]
+            if not free:
+                return self.inspect("write")
+            a, b = rng.choice(free)
+            ctx.count("op.write-through.view-connect")
+            try:
+                c.connect(a, b)
+            except Exception:  # noqa
+                ctx.count("op.write-through.view-connect-refused")
+            else:
+                if e.lookup_bond(a, b) is None or e.n_bonds != len(m.bonds) + 1:
+                    return self.v("write:view.connect:accepted-without-reaching-the-ensemble")
+                m.bonds.append(bond_pairs(e)[-1])
+            return self.inspect("write")
+        field = how[len("view."):-len("=v")]
+        val = {"name": lambda: rng.choice([n for n in ("via-view", "v2", "Kx") if n != m.name]),
+               "charge": lambda: rng.choice([q for q in (-3, -1, 0, 1, 4) if q != m.charge]),
+               "mult": lambda: rng.choice([q for q in (1, 2, 3, 5) if q != m.mult]),
+               "attrib": lambda: {"via": rng.choice(["view", 3, None])}}[field]()
+        ctx.count("op.write-through.view-setattr")
+        try:
+            setattr(c, field, val)
+        except Exception:  # noqa   (refused: the inspection that follows sees that nothing changed)
+            ctx.count("op.write-through.view-setattr-refused")
+        else:
+            got = getattr(e, field)
+            if (dict(got) if field == "attrib" else got) != val:
+                return self.v(f"write:view.{field}=v:accepted-without-reaching-the-ensemble")
+            ctx.count("op.write-through.view-setattr-accepted")
+            setattr(m, field, dict(val) if field == "attrib" else val)
+        self.inspect("write")
 
     def unfit_leaves_rectangular(self, label, raised):
         """after an assignment / transformation whose argument does not fit (or that was refused): the three arrays still
@@ -891,6 +1209,12 @@ class Driver:
                 return self.v("dump:conformer-text-shows-another-row", conformer=i)
             if not np.allclose(back.atomic_charges, m.charges[i], atol=6e-4):
                 return self.v("dump:conformer-text-shows-another-rows-charges", conformer=i)
+            bad = text_header_differs(t2, tx, m.name, m.na, m.bonds)
+            if bad:
+                return self.v(f"dump:conformer-text-differs-from-the-ensemble:{bad}", conformer=i)
+        self.text_of_held("dump")
+        if not self.ok:
+            return
         try:
             whole = ml.ConformerEnsemble.loads_mol2(e.dumps_mol2()) if m.na else None
         except Exception as ex:  # noqa
@@ -1044,6 +1368,14 @@ def run_chunk(spec, ctx):
             model.attrib = _copy.deepcopy(dict(ens.attrib))
         except Exception:  # noqa
             pass
+        # name / charge / multiplicity / bonds: the initial values are the constructor's business (not fixed by the property);
+        # from here on they change only through the edits of the history
+        model.name, model.charge, model.mult, model.bonds = ens.name, ens.charge, ens.mult, bond_pairs(ens)
+        if rng.random() < 0.3:
+            try:
+                grow_atomless(rng, ctx, case, base)
+            except Exception as ex:  # noqa
+                ctx.violation(f"grow-atomless:raises:{type(ex).__name__}", case=case, err=repr(ex)[:200])
         d.kinds.append(f"construct:{route}")
         d.inspect("construct")
         for _ in range(rng.randrange(4, 26)):
